@@ -10,7 +10,7 @@ import uni_common as U
 import c04_uni as G
 
 PROPERTY = "C03"
-LEAN_MODULES = ["Proofs.C03.Uni"]
+LEAN_MODULES = ["Proofs.C03.Uni", "Proofs.C03.UniValue", "Proofs.C03.UniKernel", "Proofs.C03.UniKeys"]
 DRIVERS = ["driver"]
 RULE = ("[uni] sequences of 1–12 operations on one frozen status row (all public operations; amounts log-uniform 1e-9…1e12, zero, exact balance, "
         "balance*(1±1e-6), oversized x10, negative; liquidity to remove: none / part / all / more than held / zero; collect caps below / at / above "
